@@ -96,6 +96,10 @@ inline void init_tables() {
     }
   }
   for (char32_t c : {U'0', U'1', U'9'}) A.digits_en.push_back(c);
+  // boundaries of the algorithmic Hangul ranges
+  for (char32_t c : {0xD7A3u, 0xD7A2u, 0xAC01u, 0xAC1Bu, 0xD788u + 27u}) A.hangul_lvt.push_back(c);
+  for (char32_t c : {0xAC00u, 0xD788u, 0xAC1Cu}) A.hangul_lv.push_back(c);
+  A.hangul_t.push_back(0x11A7);  // TBase itself: not a trailing consonant, must never compose
   (void)keep;
 }
 
